@@ -469,7 +469,9 @@ func (a *oauth2IntrospectionAuthenticator) calculateCacheKey(ep *endpoint.Endpoi
 	digest := sha256.New()
 	digest.Write(ep.Hash())
 	digest.Write(stringx.ToBytes(templatedURL))
+	digest.Write([]byte{0})
 	digest.Write(stringx.ToBytes(token))
+	digest.Write([]byte{0})
 
 	return hex.EncodeToString(digest.Sum(nil))
 }
